@@ -48,6 +48,10 @@ RULE = (
     "exploration (function and command --strict/--fix 0|1|2, info recount). Modes: a slice with every "
     "verdict class (all feature variants, mixed-dtype pairs) re-explored under "
     "torch.set_default_dtype(float64) and under torch.inference_mode (plain and sos/eos data sets). "
+    "LISTING ORDER (environment answer): the same slice, six three-utterance directories (clean / repairable / "
+    "repairable with tolerance, at every position) and the discovery layouts for two namings are re-explored with "
+    "os.listdir / os.scandir answering in each of five non-sorted orders (mc.seams.ListingPolicy: together with the "
+    "sorted one, every permutation of a directory with <= 3 entries), verdicts, repairs and reports against the same model. "
     "sos/eos: every token list |x|<=3 over {0,1,2} x stored 1-D / (R,3) x tokens_only x 4 sos/eos "
     "settings x {SpectDataSet, LangDataSet}. A state is non-trivial when it carries >=1 injected defect."
 )
